@@ -128,7 +128,8 @@ class WeightedRelativeEntropy(ProbabilityBasedLossFunction):
         self, mode_weight: str, data: List[Tuple[int, np.ndarray]]
     ) -> None:
         if mode_weight == "identity":
-            pass
+            # drop the weights of an earlier configuration
+            self.set_weights(None)
         elif mode_weight == "custom":
             self.set_weights(self.option.weights)
 
